@@ -10,7 +10,7 @@ import os, json, shutil, collections
 import qv, hist, seqrun, common
 
 
-def build_variant(cid, g, ops, fault_lines, rng):
+def build_variant(cid, g, ops, fault_lines, rng, image=None):
     """history with faults switched on during the ops; recovery; snapshot; reopen; sweep"""
     lines = []
     lines += fault_lines
@@ -22,7 +22,7 @@ def build_variant(cid, g, ops, fault_lines, rng):
     lines.append('X rec')
     lines.append('open ' + g.params())
     total = g.size // (1 << g.bs) * (1 << g.bs)
-    chunk = max(4 * g.cs, 4096)
+    chunk = max(4 * g.cs, 4096, (g.size >> 7) // 4096 * 4096)
     sweeps = []
     off = 0
     while off < total:
@@ -30,10 +30,10 @@ def build_variant(cid, g, ops, fault_lines, rng):
         lines.append('R %d %d' % (off, ln))
         sweeps.append((off, ln))
         off += ln
-    return hist.case_text(cid, g, lines), sweeps
+    return hist.case_text(cid, g, lines, image=image), sweeps
 
 
-def judge_variant(g, ops, sweeps, lines, verdict):
+def judge_variant(g, ops, sweeps, lines, verdict, init=None):
     """returns (class, description) or None"""
     res = [l for l in lines if l.startswith('res ')]
     opens = [l for l in lines if l.startswith('open ')]
@@ -48,6 +48,9 @@ def judge_variant(g, ops, sweeps, lines, verdict):
         return None
     # walk the ops: exact or uncertain expectations per block
     flat = hist.Flat(g.size)
+    if init is not None:
+        flat.blk = dict(init.blk)
+        flat.alloc = set(init.alloc)
     uncertain = {}   # block -> set of acceptable values
     cs = g.cs
 
@@ -121,13 +124,25 @@ def run(tier, seed, replay):
         g.punch = 1
         ops = hist.gen_ops(rng, g, rng.randrange(4, 14), mix={'W': 55, 'D': 15, 'F': 15, 'R': 10, 'K': 5}, flush_end=False)
         ops = [o for o in ops if o[0] != 'O']
-        bases.append((g, ops))
+        image, init = None, None
+        if k % 3 == 2:
+            # independently built image: compressed / zero / preallocated clusters, free clusters with stale content
+            import foreign
+            top = foreign.rand_desc(rng, with_backing=False, allow_v2=False, cbs=[9, 9, 10], nclusters=rng.choice([8, 20, 40]))
+            try:
+                paths, _ = foreign.write_images(d, 'c17img_%d' % k, [top])
+                g = hist.Geom(top.cluster_bits, top.refcount_order, top.size, 9, (9, rng.choice([2, 3, 8]) << 9), (9, rng.choice([2, 3, 8]) << 9), punch=1)
+                ops = [o for o in hist.gen_ops(rng, g, rng.randrange(4, 14), mix={'W': 60, 'D': 10, 'F': 15, 'R': 10, 'K': 5}, flush_end=False) if o[0] != 'O']
+                image, init = 'image file ' + paths[0], foreign.Truth([top]).flat()
+            except ValueError:
+                image, init = None, None
+        bases.append((g, ops, image, init))
     # clean runs: number of requests per history
-    clean = [('c17b_%d' % k, hist.case_text('c17b_%d' % k, g, [hist.op_line(o) for o in ops] + ['reqcount'])) for k, (g, ops) in enumerate(bases)]
+    clean = [('c17b_%d' % k, hist.case_text('c17b_%d' % k, g, [hist.op_line(o) for o in ops] + ['reqcount'], image=image)) for k, (g, ops, image, init) in enumerate(bases)]
     obs = seqrun.run_cases_text(d, clean, timeout=600)
     variants = []
     meta = {}
-    for k, (g, ops) in enumerate(bases):
+    for k, (g, ops, image, init) in enumerate(bases):
         ls = obs.get('c17b_%d' % k, [])
         rq = [l for l in ls if l.startswith('reqcount')]
         if not rq:
@@ -139,17 +154,17 @@ def run(tier, seed, replay):
             idxs = sorted(rng.sample(idxs, 60))
         for i in idxs:
             cid = 'c17_%d_%d' % (k, i)
-            text, sweeps = build_variant(cid, g, ops, ['failidx %d' % i], rng)
+            text, sweeps = build_variant(cid, g, ops, ['failidx %d' % i], rng, image)
             # failidx counts from the moment it is placed: place it before `open` by moving it up
             text = text.replace('open %s\nfailidx %d\n' % (g.params(), i), 'failidx_abs %d\nopen %s\n' % (i, g.params()))
             variants.append((cid, text))
-            meta[cid] = (g, ops, sweeps, 'request #%d fails' % i)
+            meta[cid] = (g, ops, sweeps, 'request #%d fails' % i, init)
         # punch unsupported for the whole history
         cid = 'c17_%d_np' % k
         g2 = hist.Geom(g.cb, g.ro, g.size, g.bs, g.l2, g.rb, punch=0)
-        text, sweeps = build_variant(cid, g2, ops, [], rng)
+        text, sweeps = build_variant(cid, g2, ops, [], rng, image)
         variants.append((cid, text))
-        meta[cid] = (g2, ops, sweeps, 'hole punching unsupported')
+        meta[cid] = (g2, ops, sweeps, 'hole punching unsupported', init)
         # random multi-request fault sets by kind/range
         for j in range(3 if tier == 'quick' else 10):
             cid = 'c17_%d_m%d' % (k, j)
@@ -158,9 +173,9 @@ def run(tier, seed, replay):
                 kind = rng.choice(['W', 'W', 'Z', 'S', 'R'])
                 lo = rng.randrange(0, 40) * g.cs
                 fl.append('fault %s %d %d %d' % (kind, lo, lo + rng.randrange(1, 20) * g.cs, rng.randrange(0, 3)))
-            text, sweeps = build_variant(cid, g, ops, fl, rng)
+            text, sweeps = build_variant(cid, g, ops, fl, rng, image)
             variants.append((cid, text))
-            meta[cid] = (g, ops, sweeps, 'faults: ' + '; '.join(fl))
+            meta[cid] = (g, ops, sweeps, 'faults: ' + '; '.join(fl), init)
     obs2 = seqrun.run_cases_text(d, variants, timeout=1500)
     lst = os.path.join(d, 'l.txt')
     paths = [os.path.join(d, cid + '.rec.img') for cid, _ in variants if os.path.exists(os.path.join(d, cid + '.rec.img'))]
@@ -173,16 +188,15 @@ def run(tier, seed, replay):
     finds = []
     errs = collections.Counter()
     for cid, text in variants:
-        g, ops, sweeps, what = meta[cid]
+        g, ops, sweeps, what, init = meta[cid]
         ls = obs2.get(cid, [])
         for l in ls:
             tk = l.split()
             if tk[0] == 'res' and len(tk) > 2 and tk[2] == 'err':
                 errs['err'] += 1
-        r = judge_variant(g, ops, sweeps, ls, ver.get(cid + '.rec.img'))
+        r = judge_variant(g, ops, sweeps, ls, ver.get(cid + '.rec.img'), init)
         if r:
             finds.append((r[0], cid, '%s [%s; %s]' % (r[1], what, g.desc()), text))
-    shutil.rmtree(d, ignore_errors=True)
     violations, known = [], []
     kfs = [f for f in qv.known_findings().get('findings', []) if f.get('property') == 'C17']
     seen = collections.Counter()
@@ -198,9 +212,10 @@ def run(tier, seed, replay):
         p = qv.write_replay('C17', cid + '.json', json.dumps({'class': cls, 'what': desc, 'case_text': text}))
         violations.append({'replay': p})
         print('  finding [%s] %s: %s' % (cls, cid, desc[:330]))
+    shutil.rmtree(d, ignore_errors=True)
     cov = {'evaluations': len(variants), 'distinct_nontrivial': len(variants),
            'rule': 'for each base history one run per backend request index with that request failing (exhaustive per history in the thorough tier, sampled to 60 in quick), one run with hole punching unsupported, and random multi-request fault sets by (kind, host range, nth occurrence); recovery = faults off, flush_meta x4, snapshot, reopen, sweep',
-           'samples': [{'geometry': g.desc(), 'ops': [hist.op_line(o) for o in ops]} for g, ops in bases[:2]],
+           'samples': [{'geometry': g.desc(), 'ops': [hist.op_line(o) for o in ops]} for g, ops, _, _ in bases[:2]],
            'base_histories': len(bases), 'fault_runs': len(variants), 'api_errors_observed': errs['err'],
            'findings_by_class': dict(collections.Counter(f[0] for f in finds))}
     return common.finish('C17', tier, seed, 'fault_enumeration', gate, cov, t, violations, known,
